@@ -6,6 +6,11 @@ HERE = os.path.dirname(os.path.dirname(os.path.abspath(__file__)))
 
 # id -> (category, technique, level text, level note, design ref)
 CHECKS = {
+ "C16": ("exploration",
+         "property-based testing: permutation metamorphic relation + rank-table oracle",
+         "Random sets of 2-5 overloads (1-3 parameters over six scalars x four widths x in/out/inout, each returning a distinct struct) are compiled under every permutation of their declaration order (up to 120) with random argument tuples (lvalues, rvalues, untyped literals); the selected overload is read from the assert_type diagnostic. The outcome must be identical for all permutations, a unique exact match must win, the winner must be viable and not dominated under the documented rank table, and a sole viable candidate must be selected. 6 000 sets quick, 150 000 thorough.",
+         "Trusted: the rank table restated from the documentation comment of typer/src/casting.rs and RSSL's rule that out/inout needs an lvalue of exactly the parameter type. Dominance uses the product order (weakest reading).",
+         "DESIGN.md section 3, C16"),
  "C13": ("exploration",
          "property-based testing against a reference constant evaluator",
          "Random constant expression trees (depth 5, boundary operands in every scalar type, untyped literals, enum values, casts, sizeof) are evaluated by the compiler - the value is read from the diagnostic of a failing assert_eval and from the emitted HLSL for static const / const local / array size / enum value + successor / case label / template argument / numthreads - and compared (type and value) with a reference evaluator: exact i128 for literals, wrapping 32-bit for int/uint, masked shift counts, C logic, HLSL casts. Declining to fold is allowed; division by zero must be declined; any panic is a violation. 30 000 expressions x up to 17 compilations quick, 1 M thorough.",
